@@ -281,3 +281,13 @@ package js_parser
 // members (TypeScript binds enum members and namespace exports in separate containers). So a bare name becomes a
 // property access on the namespace/enum object only when "the scope is an enum" agrees with "the member is an enum value".
 //@ guarded namespace-member-capture-matches-scope-kind C06: func=(*parser).findSymbol ; in=js_parser ; site=store Symbol.NamespaceAlias ; scenario=enum_initializer_captured_by_namespace_export ; require=true:*.IsEnumScope==*.IsEnumValue
+
+// C15 ("a generated or renamed name never captures a free name of the program"): the renamer keeps declared symbols
+// away from the free names of a chunk, and it learns those from renamer.ComputeReservedNames, which reads the unbound
+// symbols registered in moduleScope.Members and moduleScope.Generated ONLY. So every unbound symbol the parser invents
+// for code it generates (RegExp, BigInt, WeakMap, WeakSet, Uint8Array, ...) must be entered into one of the two.
+// Exempt, with the reason: findLabelSymbol (error path: the build fails); makePromiseRef and prepareForVisitPass's
+// pass-through `require` (both names are only ever printed next to a call of the runtime helper __toESM, and the
+// runtime file's own module scope, which is part of every chunk that uses a helper, has `Promise` and `require` as
+// free names); insertInitializersIntoConstructor (`arguments` cannot be declared in class code, which is strict).
+//@ flow invented-free-names-are-reserved C15: func=* ; in=js_parser ; except-func=(*parser).findLabelSymbol,(*parser).makePromiseRef,(*parser).prepareForVisitPass,(*lowerClassContext).insertInitializersIntoConstructor ; site=call newSymbol ; when-arg=1:0 ; scenario=binary_loader_global_captured ; then-registers=*moduleScope.Generated OR *moduleScope.Members
